@@ -73,7 +73,10 @@ def runShapeOp (op : String) (attrs : Json) (ins : List (Option DT)) : Answer :=
         let r : Int := X.t.rank
         { model := okT X.dt (squeezeOp X.t (some A.t)), spec := reshapeSpec X sp, tags,
           guard := if A.t.data.any (fun a => a < -r ∨ a ≥ r) then ["squeeze.axis_out_of_range"]
-                   else if sp.isNone then ["squeeze.duplicate_axes"] else [] }
+                   else
+                     -- only a genuinely duplicated axis is the recorded finding; an axis of extent ≠ 1 is not
+                     let nax := A.t.data.map fun a => if a < 0 then a + r else a
+                     if nax.eraseDups.length ≠ nax.length then ["squeeze.duplicate_axes"] else [] }
     | none =>
       { model := okT X.dt (squeezeOp X.t none), spec := reshapeSpec X (Spec.squeezeShape X.t.shape none), tags }
   | "Unsqueeze", [some X, some A] =>
